@@ -205,7 +205,7 @@ structure ScanRes (s : Nat) (st : St) (post : List Nat) (d : Nat) (st' : St) (po
 
 /-- the statement proved by induction: scanning `L[x .. xprune[s])` with the machine = folding the
 recursive visit (fuel `f`) over the successors found there -/
-def ScanAt (f : Nat) : Prop :=
+def ScanAt (adj : Nat → List Nat) (f : Nat) : Prop :=
   ∀ (d : Nat) (s : Nat) (x : Int) (st : St) (post : List Nat),
     (s : Int) < e.jcol → e.jcol ≤ s + f + 1 → repOf e s = s →
     rd e.xlsub s ≤ x → x + d = rd e.xprune s →
@@ -213,7 +213,7 @@ def ScanAt (f : Nat) : Prop :=
     (∀ t : Nat, (t : Int) < e.jcol → disc st t → t ∈ post ∨ t ≤ s) →
     ∃ n st' post',
       (∀ F, run e (n + F) ⟨s, x, rd e.xprune s, st⟩ = run e F ⟨s, rd e.xprune s, rd e.xprune s, st'⟩) ∧
-      post' = (succFrom e L s x (rd e.xprune s)).foldl (fun acc r => dfsVisit (adjG e L) f r acc) post ∧
+      post' = (succFrom e L s x (rd e.xprune s)).foldl (fun acc r => dfsVisit adj f r acc) post ∧
       ScanRes e L nextl0 s st post d st' post' n
 
 variable {e L nextl0}
@@ -303,8 +303,9 @@ theorem rowStep_descend {c : Cfg} (h1 : mk2 e c.st (rd c.st.lsub c.xdfs) ≠ e.j
                           repfnz := wr c.st.repfnz (repOf e (rd e.perm_r (rd c.st.lsub c.xdfs))) (rd e.perm_r (rd c.st.lsub c.xdfs)) } } := by
   simp [rowStep, h1, h2, h3]
 
-theorem scan_rows (hE : EnvOK e L nextl0) (f : Nat) (ih : ∀ f', f = f' + 1 → ScanAt e L nextl0 f') :
-    ScanAt e L nextl0 f := by
+theorem scan_rows (hE : EnvOK e L nextl0) {adj : Nat → List Nat}
+    (hadj : ∀ s : Nat, (s : Int) < e.jcol → repOf e s = s → adj s = adjG e L s) (f : Nat) (ih : ∀ f', f = f' + 1 → ScanAt e L nextl0 adj f') :
+    ScanAt e L nextl0 adj f := by
   intro d
   induction d with
   | zero =>
@@ -329,7 +330,7 @@ theorem scan_rows (hE : EnvOK e L nextl0) (f : Nat) (ih : ∀ f', f = f' + 1 →
         ((s : Int) < rd e.perm_r (rd L x) → repN e (rd e.perm_r (rd L x)).toNat ∈ post) →
         ∃ n st' post',
           (∀ F, run e (n + F) ⟨s, x, rd e.xprune s, st⟩ = run e F ⟨s, rd e.xprune s, rd e.xprune s, st'⟩) ∧
-          post' = (succFrom e L s x (rd e.xprune s)).foldl (fun acc r => dfsVisit (adjG e L) f r acc) post ∧
+          post' = (succFrom e L s x (rd e.xprune s)).foldl (fun acc r => dfsVisit adj f r acc) post ∧
           ScanRes e L nextl0 s st post (d + 1) st' post' n := by
       intro st1 hm hst1 hstep hnoop
       obtain ⟨n, st', post', hrun, hpost, hres⟩ := ihd s (x + 1) st1 post hs hf hrs (by omega) (by omega) hst1
@@ -538,8 +539,8 @@ theorem scan_rows (hE : EnvOK e L nextl0) (f : Nat) (ih : ∀ f', f = f' + 1 →
               have := repN_cast hE hkpr.1 hkpr.2
               rw [hc] at this; exact_mod_cast this
             rw [hcc]
-            have : dfsVisit (adjG e L) (f' + 1) c post = c :: post2 := by
-              rw [hpost2, ← adjG_eq]
+            have : dfsVisit adj (f' + 1) c post = c :: post2 := by
+              rw [hpost2, ← adjG_eq, ← hadj c hrep2 hrep3]
               simp [dfsVisit, hcpost]
             rw [this]
           · exact
@@ -602,11 +603,12 @@ end main
 section root
 variable {e : Env} {L : Array Int} {nextl0 : Int}
 
-theorem scanAt_all (hE : EnvOK e L nextl0) : ∀ f, ScanAt e L nextl0 f
-  | 0 => scan_rows hE 0 (fun f' h => by omega)
-  | f + 1 => scan_rows hE (f + 1) (fun f' h => by
+theorem scanAt_all (hE : EnvOK e L nextl0) {adj : Nat → List Nat}
+    (hadj : ∀ s : Nat, (s : Int) < e.jcol → repOf e s = s → adj s = adjG e L s) : ∀ f, ScanAt e L nextl0 adj f
+  | 0 => scan_rows hE hadj 0 (fun f' h => by omega)
+  | f + 1 => scan_rows hE hadj (f + 1) (fun f' h => by
       have : f' = f := by omega
-      subst this; exact scanAt_all hE f')
+      subst this; exact scanAt_all hE hadj f')
 
 /-- between two nonzeros of the column: the stack is empty, every discovered representative is finished -/
 structure Root (post : List Nat) (st : St) : Prop where
@@ -643,17 +645,18 @@ theorem Root.of_mild {st st1 : St} {post : List Nat} (hm : Mild st st1) (h : Roo
   ⟨hok, h.pok.of_mild hm, fun t ht hd => h.fin t ht ((hm.disc _).mp hd)⟩
 
 /-- one nonzero of the column: the machine does what one recursive visit from its pivot column does -/
-theorem rootStep_spec (hE : EnvOK e L nextl0) {fuel : Nat} (hfuel : (e.jcol.toNat + 1) * stepK nextl0 ≤ fuel)
+theorem rootStep_spec (hE : EnvOK e L nextl0) {adj : Nat → List Nat}
+    (hadj : ∀ s : Nat, (s : Int) < e.jcol → repOf e s = s → adj s = adjG e L s) {fuel : Nat} (hfuel : (e.jcol.toNat + 1) * stepK nextl0 ≤ fuel)
     {st : St} {post : List Nat} (hR : Root (e := e) (L := L) (nextl0 := nextl0) post st)
     {krow : Int} (hr0 : 0 ≤ krow) (hr1 : krow < e.m) :
     ∃ st' post', rootStep e fuel st krow = some st' ∧
       Root (e := e) (L := L) (nextl0 := nextl0) post' st' ∧ SegExt st post st' post' ∧
-      post' = (rootCols e [krow]).foldl (fun acc k => dfsVisit (adjG e L) e.jcol.toNat (repN e k) acc) post := by
+      post' = (rootCols e [krow]).foldl (fun acc k => dfsVisit adj e.jcol.toNat (repN e k) acc) post := by
   have hE1 : (EMPTY : Int) = -1 := rfl
   have hst := hR.ok
   have hpo := hR.pok
   have hfin : rd e.perm_r krow ≠ EMPTY → disc st (repOf e (rd e.perm_r krow)) →
-      dfsVisit (adjG e L) e.jcol.toNat (repN e (rd e.perm_r krow).toNat) post = post := by
+      dfsVisit adj e.jcol.toNat (repN e (rd e.perm_r krow).toNat) post = post := by
     intro hkp hd
     have hkpr : 0 ≤ rd e.perm_r krow ∧ rd e.perm_r krow < e.jcol := by
       rcases hE.perm _ hr0 hr1 with h | h
@@ -663,8 +666,8 @@ theorem rootStep_spec (hE : EnvOK e L nextl0) {fuel : Nat} (hfuel : (e.jcol.toNa
     have hrep := hE.rep _ hkpr.1 hkpr.2
     exact dfsVisit_mem _ _ (hR.fin _ (by rw [hc]; exact hrep.2.1) (by rw [hc]; exact hd))
   have hpost : ∀ post' : List Nat, (rd e.perm_r krow = EMPTY → post' = post) →
-      (rd e.perm_r krow ≠ EMPTY → post' = dfsVisit (adjG e L) e.jcol.toNat (repN e (rd e.perm_r krow).toNat) post) →
-      post' = (rootCols e [krow]).foldl (fun acc k => dfsVisit (adjG e L) e.jcol.toNat (repN e k) acc) post := by
+      (rd e.perm_r krow ≠ EMPTY → post' = dfsVisit adj e.jcol.toNat (repN e (rd e.perm_r krow).toNat) post) →
+      post' = (rootCols e [krow]).foldl (fun acc k => dfsVisit adj e.jcol.toNat (repN e k) acc) post := by
     intro post' h1 h2
     by_cases hkp : rd e.perm_r krow = EMPTY
     · simp [rootCols, hkp, h1 hkp]
@@ -753,7 +756,7 @@ theorem rootStep_spec (hE : EnvOK e L nextl0) {fuel : Nat} (hfuel : (e.jcol.toNa
         have hj : (e.jcol.toNat : Int) = e.jcol := Int.toNat_of_nonneg hE.jcol0
         obtain ⟨j', hj'⟩ : ∃ j', e.jcol.toNat = j' + 1 := ⟨e.jcol.toNat - 1, by omega⟩
         obtain ⟨nc, st2, post2, hrunc, hpost2, hres2⟩ :=
-          scanAt_all hE j' (rd e.xprune c - rd e.xlsub c).toNat c (rd e.xlsub c) st1 post hrep2 (by omega) hrep3
+          scanAt_all hE hadj j' (rd e.xprune c - rd e.xlsub c).toNat c (rd e.xlsub c) st1 post hrep2 (by omega) hrep3
             (le_refl _) (by omega) hst1 hpo1 hd1c
             (fun t ht hd => by
               rcases hd1' _ hd with h | h
@@ -837,9 +840,38 @@ theorem rootStep_spec (hE : EnvOK e L nextl0) {fuel : Nat} (hfuel : (e.jcol.toNa
         · intro y hy
           rw [e3_seg, rd_wr_ne (by rw [hnw3, e_nseg]; omega), hres2.segFrame y (by rw [e_nseg]; exact hy), e_seg]
         · refine hpost _ (fun h => absurd h hkp) (fun _ => ?_)
-          rw [hcc, hj', hpost2, ← adjG_eq]
+          rw [hcc, hj', hpost2, ← adjG_eq, ← hadj c hrep2 hrep3]
           simp [dfsVisit, hcpost]
 
 end root
+
+section search
+variable {e : Env} {L : Array Int} {nextl0 : Int}
+
+theorem rootCols_cons (krow : Int) (rows : List Int) : rootCols e (krow :: rows) = rootCols e [krow] ++ rootCols e rows := by
+  unfold rootCols
+  rw [← filterMap_append]; rfl
+
+/-- the `for` loop over the nonzeros of the column = the recursive search from their pivot columns -/
+theorem search_spec (hE : EnvOK e L nextl0) {adj : Nat → List Nat}
+    (hadj : ∀ s : Nat, (s : Int) < e.jcol → repOf e s = s → adj s = adjG e L s) {fuel : Nat}
+    (hfuel : (e.jcol.toNat + 1) * stepK nextl0 ≤ fuel) :
+    ∀ (rows : List Int) (st : St) (post : List Nat), Root (e := e) (L := L) (nextl0 := nextl0) post st →
+      (∀ r ∈ rows, 0 ≤ r ∧ r < e.m) →
+      ∃ st' post', search e fuel rows st = some st' ∧
+        Root (e := e) (L := L) (nextl0 := nextl0) post' st' ∧ SegExt st post st' post' ∧
+        post' = (rootCols e rows).foldl (fun acc k => dfsVisit adj e.jcol.toNat (repN e k) acc) post := by
+  intro rows
+  induction rows with
+  | nil => intro st post hR _; exact ⟨st, post, rfl, hR, SegExt.refl _ _, by simp [rootCols]⟩
+  | cons krow rows ih =>
+    intro st post hR hrows
+    obtain ⟨st1, post1, h1, hR1, hS1, hp1⟩ := rootStep_spec hE hadj hfuel hR (hrows krow mem_cons_self).1 (hrows krow mem_cons_self).2
+    obtain ⟨st2, post2, h2, hR2, hS2, hp2⟩ := ih st1 post1 hR1 (fun r hr => hrows r (mem_cons_of_mem _ hr))
+    refine ⟨st2, post2, by simp [search, h1, h2], hR2, hS1.trans hR.ok.nseg0 hS2, ?_⟩
+    rw [hp2, hp1]
+    conv_rhs => rw [rootCols_cons, foldl_append]
+
+end search
 
 end Slu.ColDfs
